@@ -134,6 +134,14 @@ class Handle:
         self.fs.trace.append(("write", self.name, NBYTES))
         return NBYTES
 
+    def write_partial(self):
+        """a serializer that fails part-way leaves a truncated stream behind"""
+        f = self.fs.files[self.name]
+        f.blob = None
+        f.total = NBYTES
+        f.written = NBYTES // 2
+        self.fs.trace.append(("write", self.name, NBYTES // 2))
+
     def read(self):
         return self.fs.files[self.name].blob
 
@@ -150,7 +158,7 @@ class Handle:
 def _find_pool(obj, depth=0, seen=None):
     """contract of real picklers: process-pool objects cannot be pickled."""
     seen = seen if seen is not None else set()
-    if id(obj) in seen or depth > 5:
+    if id(obj) in seen or depth > 9:
         return None
     seen.add(id(obj))
     cname = type(obj).__name__
@@ -185,6 +193,10 @@ def fake_dill():
     mod.loads = lambda b, *a, **k: None
 
     def dump(obj=None, file=None, *a, **k):
+        if _find_pool(obj) is not None:
+            # the real pickler fails part-way through the stream: whatever was written so far stays in the file
+            file.write_partial()
+            raise NotImplementedError("pool objects cannot be passed between processes or pickled")
         file.write(Blob(by_value(obj)))
 
     def load(file=None, *a, **k):
@@ -666,7 +678,7 @@ def make_configs():
             from vf.props.c13 import SymPoolSize
             pool = SymPoolSize(integer(ctx, "pool_size", lo=1, hi=4))
         else:
-            pool = types.SimpleNamespace(map=map)
+            pool = types.SimpleNamespace(map=map, _is_pool_double=True)  # user-supplied pool objects refuse pickling (multiprocessing contract)
         blobs = bool(boolean(ctx, "blobs"))
         A, it, calls = sym_filled_sampler(ctx, 1, blobs, pool=pool)
         path = Path(tempfile.gettempdir()) / "vf_c08" / "ps_cfg.state"
@@ -699,7 +711,11 @@ def make_configs():
         kind = int(m.get("pool_kind", 0))
         d = tempfile.mkdtemp(prefix="vf_c08p_")
         try:
-            pool = None if kind == 0 else (int(m.get("pool_size", 1)) if kind == 1 else types.SimpleNamespace(map=map))
+            tp = None
+            if kind == 2:
+                from multiprocessing.pool import ThreadPool
+                tp = ThreadPool(1)  # a real pool object: refuses pickling exactly like a process pool, no worker processes
+            pool = None if kind == 0 else (int(m.get("pool_size", 1)) if kind == 1 else tp)
             A = Sampler(lambda u: u, _ll, n_dim=1, n_particles=4, clustering=False, pool=pool, output_dir=d,
                         blobs_dtype=None)
             err = None
@@ -709,6 +725,8 @@ def make_configs():
                 A.save_state(os.path.join(d, "x.state"))
             except Exception as e:
                 err = e
+            if tp is not None:
+                tp.terminate()
             for p_ in [getattr(A._core, n_) for n_ in dir(A._core) if "pool" in n_.lower() and n_ != "config"]:
                 try:
                     p_.terminate()
@@ -866,6 +884,9 @@ def make_resume_target():
 def obligations(tier):
     obs = [make_restore(2, False), make_restore(1, True), make_crash(False), make_crash(True), make_configs(), make_resume_target(),
            make_resave_after_replacement()]
+    # the first iteration after a resume, clustering configurations: new step objects on a restored annealing history (C14's pipeline harness)
+    from vf.props.c14 import make_pipeline
+    obs.append(make_pipeline(2, 3, 1, 2, resumed=True))
     if tier == "thorough":
         obs += [make_restore(3, True), make_restore(3, False)]
     return obs
